@@ -306,6 +306,10 @@ Judge(e, pre) ==
     [] e.act.a = "grow" -> JudgeGrow(e, pre)
     [] e.act.a = "step" -> JudgeStepT(e, pre)
     [] e.act.a = "copy_to_code" -> JudgeCopy(e, pre)
+    \* registering an instruction touches no state (the name is one of HarnessInstr: known to the specification throughout,
+    \* cases use it in program text only after this act)
+    [] e.act.a = "add_instr" -> IF Crashed(e) THEN Verdict("crash", "add_instr", "C03", <<>>, e.post.msg)
+                                ELSE IF e.post = pre THEN Blank("ok", "add_instr") ELSE Verdict("mismatch", "add_instr", "C03", <<>>, "registering an instruction changed the state")
     [] e.act.a = "parse" -> JudgeParse(e, pre)
     [] e.act.a = "parse_summary" ->
          IF Crashed(e) THEN Verdict("crash", "parse", "C03", <<>>, e.post.msg)
